@@ -582,6 +582,9 @@ func (s *Module) AddMPTNodes(nodes [][]byte) error {
 		if r.Err != nil {
 			return fmt.Errorf("failed to decode MPT node: %w", r.Err)
 		}
+		if !bytes.HasPrefix(nBytes, n.Bytes()) {
+			return errors.New("failed to decode MPT node: non-canonical encoding")
+		}
 		err := s.restoreNode(n.Node)
 		if err != nil {
 			return err
